@@ -1,7 +1,7 @@
 (* Dispatcher: one entry point for every executable model function. *)
 From Coq Require Import List ZArith Arith Bool QArith Qcanon.
 From MsmV Require Import Lib.Result Lib.PyList Lib.Sorting Run.Wire.
-From MsmV Require Import Lib.QMat Model.Labels Model.StateTraj Model.Msm Proofs.MsmFacts Model.Coring Proofs.CoringFacts Proofs.CoringWrap Model.Events Model.Similarity Spec.Wrappers Model.Ergodic Model.Peq Model.HS Model.Mcmc Model.CkTest Model.Its Model.TextIO.
+From MsmV Require Import Lib.QMat Model.Labels Model.StateTraj Model.Msm Proofs.MsmFacts Model.Coring Proofs.CoringFacts Proofs.CoringWrap Model.Events Model.Similarity Spec.Wrappers Model.Ergodic Model.Peq Model.HS Model.Mcmc Model.CkTest Model.Its Model.TextIO Model.Filter.
 Import ListNotations.
 Local Open Scope Z_scope.
 
@@ -284,6 +284,25 @@ Definition run_io (e : Z) (a : list Z) : option (list Z) :=
     | None => None end
   else None.
 
+Definition run_filter (e : Z) (a : list Z) : option (list Z) :=
+  if e =? 2001 then
+    match dpair (dlist dQ) (dlist dQ) a with
+    | Some ((w, xs), _) => Some (eQs (gfilt w xs))
+    | None => None end
+  else if e =? 2002 then
+    match dpair (dlist dQ) dQmat a with
+    | Some ((w, tbl), _) => Some (eQmat (gfilt2d w tbl))
+    | None => None end
+  else if e =? 2003 then
+    match dpair (dlist dQ) dnat a with
+    | Some ((xs, w), _) => Some (eQs (runningmean xs w) ++ eQs (map (window_mean xs w) (seq 0 (length xs))))
+    | None => None end
+  else if e =? 1901 then
+    match dpair dnat dnat a with
+    | Some ((n, chunk), _) => Some (enested (split_array (map Z.of_nat (seq 0 n)) chunk))
+    | None => None end
+  else None.
+
 Definition run (req : list Z) : list Z :=
   match req with
   | [] => malformed
@@ -320,6 +339,9 @@ Definition run (req : list Z) : list Z :=
       | None =>
       match run_io e a with
       | Some r => r
+      | None =>
+      match run_filter e a with
+      | Some r => r
       | None => malformed
-      end end end end end end end end end end end
+      end end end end end end end end end end end end
   end.
